@@ -48,7 +48,9 @@ func (e *executor[R]) Apply(innerFn func(failsafe.Execution[R]) *common.PolicyRe
 			}
 
 			// Delay
-			delay := e.getDelay(exec)
+			// Compute the delay on a copy, as for the listeners, since a delay function may read the last result or
+			// error while an enclosing Timeout cancels the live execution from its timer goroutine
+			delay := e.getDelay(execInternal.CopyWithResult(result))
 			if e.onRetryScheduled != nil {
 				e.onRetryScheduled(failsafe.ExecutionScheduledEvent[R]{
 					ExecutionAttempt: execInternal.CopyWithResult(result),
